@@ -241,4 +241,1130 @@ theorem unquote_quoteFull (c : Comp) (nfc : Text → Text) (s : Text)
   have := decodeR_utf8 (nfc s) hs []
   simpa [decodeR_nil] using this
 
+theorem unqBytes_cons (c : Nat) (rest : Text) :
+    unqBytes (c :: rest) = (unqStep c rest).1 :: unqBytes (rest.drop (unqStep c rest).2) := run_cons _ _ _
+
+/-- `unquote_to_bytes` is the reference percent-decoder -/
+theorem unqBytes_eq_spec (s : Text) : unqBytes s = unqSpec s := by
+  fun_induction unqSpec s with
+  | case1 => exact unqBytes_nil
+  | case2 a b r h ih =>
+    rw [unqBytes_cons]
+    simp only [Bool.and_eq_true] at h
+    simp [unqStep, hexPair_eq_spec, hexSpec, h.1, h.2, ih]
+  | case3 a b r h ih =>
+    rw [unqBytes_cons]
+    have : hexSpec a b = none := by simp [hexSpec, h]
+    simp [unqStep, hexPair_eq_spec, this, ih]
+  | case4 c rest hne ih =>
+    rw [unqBytes_cons]
+    by_cases hc : c = 37
+    · subst hc
+      match rest, hne with
+      | [], _ => simp [unqStep, ih]
+      | [x], _ => simp [unqStep, ih]
+      | x :: y :: r, hne => exact absurd rfl (hne x y r rfl)
+    · simp [unqStep, hc, ih]
+
+theorem isUpperHex_hex {x : Nat} (h : isUpperHex x = true) : isHexDigit x = true := by
+  simp only [isUpperHex, isHexDigit, Bool.or_eq_true, Bool.and_eq_true, decide_eq_true_eq] at *
+  omega
+
+theorem wellQuoted_entry {c : Comp} {b : Nat} {e : List Nat} (h : entryOK c b e = true) (rest : Text) :
+    wellQuoted c (e ++ rest) = wellQuoted c rest := by
+  rcases entryOK_cases h with ⟨he, hb, _, hl⟩ | ⟨x, y, he, hx, hy, _⟩
+  · subst he
+    simp only [List.cons_append, List.nil_append]
+    rw [wellQuoted.eq_def]
+    split
+    · simp at *
+    · rename_i heq; simp at heq; omega
+    · rename_i heq; simp at heq; simp [← heq.1, ← heq.2, hb, hl]
+  · subst he
+    simp [wellQuoted, isUpperHex_hex hx, isUpperHex_hex hy]
+
+
+/-! ### totality: the only exception is URLParseError -/
+
+theorem parsePort_err {s : Text} {e : Err} (h : parsePort s = .error e) : e = .urlParseError := by
+  unfold parsePort at h
+  split at h
+  · cases h
+  · split at h
+    · cases h
+    · cases h; rfl
+
+theorem splitHostPort_err {s : Text} {e : Err} (h : splitHostPort s = .error e) : e = .urlParseError := by
+  unfold splitHostPort at h
+  split at h
+  · cases h
+  · split at h
+    · split at h
+      · cases h
+      · rename_i e' he; cases h; exact parsePort_err he
+    · split at h
+      · cases h
+      · rename_i e' he; cases h; exact parsePort_err he
+
+theorem parseHost_err {env : Env} {s : Text} {e : Err} (h : parseHost env s = .error e) : e = .urlParseError := by
+  unfold parseHost at h
+  split at h
+  · cases h
+  · split at h
+    · split at h
+      · cases h
+      · cases h; rfl
+    · cases h
+
+theorem parseAuthority_err {env : Env} {au : Text} {e : Err} (h : parseAuthority env au = .error e) :
+    e = .urlParseError := by
+  unfold parseAuthority at h
+  simp only at h
+  split at h
+  · rename_i e' he
+    cases h
+    split at he
+    · cases he
+    · exact splitHostPort_err he
+  · split at h
+    · rename_i e' he; cases h; exact parseHost_err he
+    · cases h
+
+/-- `URL(text)` raises nothing but URLParseError -/
+theorem ofText_err {env : Env} {t : Text} {e : Err} (h : URL.ofText env t = .error e) : e = .urlParseError := by
+  unfold URL.ofText at h
+  simp only at h
+  split at h
+  · rename_i e' he; cases h; exact parseAuthority_err he
+  · split at h
+    · cases h; rfl
+    · cases h
+
+theorem linkStep_ok (env : Env) (o : LinkOpts) (ret : List Item) (pre m : Text) :
+    ∃ r, linkStep env o ret pre m = .ok r := by
+  unfold linkStep
+  simp only
+  cases h : URL.ofText env m with
+  | error e =>
+    have := ofText_err h
+    subst this
+    exact ⟨_, rfl⟩
+  | ok cur =>
+    simp only
+    split
+    · split
+      · cases h2 : URL.ofText env (o.defaultScheme ++ 58 :: 47 :: 47 :: m) with
+        | error e =>
+          have := ofText_err h2
+          subst this
+          exact ⟨_, rfl⟩
+        | ok cur2 => exact ⟨_, rfl⟩
+      · exact ⟨_, rfl⟩
+    · exact ⟨_, rfl⟩
+
+theorem linkLoop_ok (env : Env) (o : LinkOpts) (ms : List (Text × Text)) :
+    ∀ ret, ∃ r, linkLoop env o ret ms = .ok r := by
+  induction ms with
+  | nil => intro ret; exact ⟨ret, rfl⟩
+  | cons pm rest ih =>
+    intro ret
+    obtain ⟨pre, m⟩ := pm
+    obtain ⟨r1, h1⟩ := linkStep_ok env o ret pre m
+    simp only [linkLoop, h1]
+    exact ih r1
+
+theorem findAllLinks_ok (env : Env) (o : LinkOpts) (ms : List (Text × Text)) (tail : Text) :
+    ∃ r, findAllLinks env o ms tail = .ok r := by
+  obtain ⟨r, h⟩ := linkLoop_ok env o ms []
+  unfold findAllLinks
+  rw [h]
+  exact ⟨_, rfl⟩
+
+
+theorem wellQuoted_quoteFull (c : Comp) (nfc : Text → Text) (s : Text)
+    (hs : ∀ x ∈ nfc s, isScalar x = true) : wellQuoted c (quoteFull c.map nfc s) = true := by
+  unfold quoteFull
+  have hb := utf8_lt (nfc s) hs
+  generalize utf8 (nfc s) = bs at hb
+  induction bs with
+  | nil => simp [wellQuoted]
+  | cons b bs ih =>
+    simp only [List.flatMap_cons]
+    rw [wellQuoted_entry (entryOK_of_lt c b (hb b (by simp)))]
+    exact ih (fun x hx => hb x (by simp [hx]))
+
+theorem unqBytes_no_pct (s : Text) (hp : 37 ∉ s) : unqBytes s = s := by
+  induction s with
+  | nil => exact unqBytes_nil
+  | cons c s ih =>
+    simp only [List.mem_cons, not_or] at hp
+    rw [unqBytes_cons_ne (fun h => hp.1 h.symm), ih hp.2]
+
+theorem decodeR_ascii (s : Bytes) (h : ∀ c ∈ s, c < 128) : decodeR s = s := by
+  induction s with
+  | nil => exact decodeR_nil
+  | cons c s ih =>
+    have hc : c < 128 := h c (by simp)
+    unfold decodeR at *
+    rw [run_cons]
+    simp only [decodeStep, hc, if_true, List.drop_zero]
+    rw [ih (fun x hx => h x (by simp [hx]))]
+
+theorem unqGo_no_pct (s : Text) (hp : 37 ∉ s) :
+    ∀ acc : Text, 37 ∉ acc → (∀ c ∈ acc, c < 128) → unqGo s acc = acc.reverse ++ s := by
+  induction s with
+  | nil =>
+    intro acc ha hb
+    simp only [unqGo, List.append_nil]
+    rw [unqBytes_no_pct _ (by simpa using ha), decodeR_ascii _ (by simpa using hb)]
+  | cons c s ih =>
+    intro acc ha hb
+    simp only [List.mem_cons, not_or] at hp
+    unfold unqGo
+    split
+    · rename_i hc
+      rw [ih hp.2 (c :: acc) (by simp [ha, hp.1]) (by intro x hx; simp at hx; rcases hx with rfl | hx; exact hc; exact hb x hx)]
+      simp
+    · rw [ih hp.2 [] (by simp) (by simp)]
+      rw [unqBytes_no_pct _ (by simpa using ha), decodeR_ascii _ (by simpa using hb)]
+      simp
+
+/-- text without `%` is left alone by `unquote` -/
+theorem unquote_no_pct (s : Text) (hp : 37 ∉ s) : unquote s = s := by
+  unfold unquote
+  rw [unqGo_no_pct s hp [] (by simp) (by simp)]
+  simp
+
+
+/-! ### takeWhile / dropWhile splitting -/
+
+/-- `tail` is empty or starts with an element on which `p` fails -/
+def StopHead (p : Nat → Bool) (tail : List Nat) : Prop :=
+  tail = [] ∨ ∃ d r, tail = d :: r ∧ p d = false
+
+theorem takeWhile_append_stop {p : Nat → Bool} {a tail : List Nat}
+    (ha : ∀ x ∈ a, p x = true) (ht : StopHead p tail) : (a ++ tail).takeWhile p = a := by
+  induction a with
+  | nil =>
+    rcases ht with rfl | ⟨d, r, rfl, hd⟩
+    · rfl
+    · simp [List.takeWhile, hd]
+  | cons x a ih =>
+    simp only [List.cons_append, List.takeWhile, ha x (by simp)]
+    rw [ih (fun y hy => ha y (by simp [hy]))]
+
+theorem dropWhile_append_stop {p : Nat → Bool} {a tail : List Nat}
+    (ha : ∀ x ∈ a, p x = true) (ht : StopHead p tail) : (a ++ tail).dropWhile p = tail := by
+  induction a with
+  | nil =>
+    rcases ht with rfl | ⟨d, r, rfl, hd⟩
+    · rfl
+    · simp [List.dropWhile, hd]
+  | cons x a ih =>
+    simp only [List.cons_append, List.dropWhile, ha x (by simp)]
+    rw [ih (fun y hy => ha y (by simp [hy]))]
+
+theorem stopHead_nil (p : Nat → Bool) : StopHead p [] := Or.inl rfl
+theorem stopHead_cons {p : Nat → Bool} {d : Nat} (r : List Nat) (h : p d = false) : StopHead p (d :: r) :=
+  Or.inr ⟨d, r, rfl, h⟩
+
+/-! ### partition / rpartition -/
+
+theorem before_append {c : Nat} {a r : Text} (ha : ∀ x ∈ a, x ≠ c) : before c (a ++ c :: r) = a := by
+  unfold before
+  exact takeWhile_append_stop (fun x hx => by simp [neq, ha x hx]) (stopHead_cons r (by simp [neq]))
+
+theorem after_append {c : Nat} {a r : Text} (ha : ∀ x ∈ a, x ≠ c) : after c (a ++ c :: r) = r := by
+  unfold after
+  rw [dropWhile_append_stop (fun x hx => by simp [neq, ha x hx]) (stopHead_cons r (by simp [neq]))]
+  rfl
+
+theorem before_none {c : Nat} {a : Text} (ha : ∀ x ∈ a, x ≠ c) : before c a = a := by
+  unfold before
+  have := takeWhile_append_stop (p := neq c) (a := a) (fun x hx => by simp [neq, ha x hx]) (stopHead_nil _)
+  simpa using this
+
+theorem after_none {c : Nat} {a : Text} (ha : ∀ x ∈ a, x ≠ c) : after c a = [] := by
+  unfold after
+  have := dropWhile_append_stop (p := neq c) (a := a) (fun x hx => by simp [neq, ha x hx]) (stopHead_nil _)
+  simp at this
+  rw [this]; rfl
+
+theorem rafter_append {c : Nat} {a r : Text} (hr : ∀ x ∈ r, x ≠ c) : rafter c (a ++ c :: r) = r := by
+  unfold rafter
+  have : (a ++ c :: r).reverse = r.reverse ++ c :: a.reverse := by simp
+  rw [this, takeWhile_append_stop (fun x hx => by simp [neq, hr x (by simpa using hx)]) (stopHead_cons _ (by simp [neq]))]
+  simp
+
+theorem rbefore_append {c : Nat} {a r : Text} (hr : ∀ x ∈ r, x ≠ c) : rbefore c (a ++ c :: r) = a := by
+  unfold rbefore
+  have : (a ++ c :: r).reverse = r.reverse ++ c :: a.reverse := by simp
+  rw [this, dropWhile_append_stop (fun x hx => by simp [neq, hr x (by simpa using hx)]) (stopHead_cons _ (by simp [neq]))]
+  simp
+
+theorem rafter_none {c : Nat} {r : Text} (hr : ∀ x ∈ r, x ≠ c) : rafter c r = r := by
+  unfold rafter
+  have := takeWhile_append_stop (p := neq c) (a := r.reverse)
+    (fun x hx => by simp [neq, hr x (by simpa using hx)]) (stopHead_nil _)
+  simp at this
+  rw [this]; simp
+
+/-! ### decimal integers -/
+
+theorem pyNatGo_snoc (ds : Text) (hd : ∀ c ∈ ds, isDigit c = true) (d : Nat) (hdd : d < 10) (acc : Nat) :
+    pyNatGo (ds ++ [48 + d]) acc = (pyNatGo ds acc).map (fun v => v * 10 + d) := by
+  induction ds generalizing acc with
+  | nil =>
+    have : isDigit (48 + d) = true := by simp [isDigit]; omega
+    simp [pyNatGo, this]
+  | cons c ds ih =>
+    have hc : isDigit c = true := hd c (by simp)
+    simp only [List.cons_append, pyNatGo, hc, if_true]
+    exact ih (fun x hx => hd x (by simp [hx])) _
+
+theorem showNatF_spec (f : Nat) : ∀ n, n < f →
+    (∀ c ∈ showNatF f n, isDigit c = true) ∧ showNatF f n ≠ [] ∧ pyNatGo (showNatF f n) 0 = some n := by
+  induction f with
+  | zero => intro n h; omega
+  | succ f ih =>
+    intro n hn
+    unfold showNatF
+    split
+    · rename_i h10
+      refine ⟨?_, by simp, ?_⟩
+      · intro c hc; simp at hc; subst hc; simp [isDigit]; omega
+      · have : isDigit (48 + n) = true := by simp [isDigit]; omega
+        simp [pyNatGo, this]
+    · rename_i h10
+      have hlt : n / 10 < f := by omega
+      obtain ⟨h1, h2, h3⟩ := ih (n / 10) hlt
+      refine ⟨?_, by simp, ?_⟩
+      · intro c hc
+        simp only [List.mem_append, List.mem_singleton] at hc
+        rcases hc with hc | rfl
+        · exact h1 c hc
+        · simp [isDigit]; omega
+      · rw [pyNatGo_snoc _ h1 _ (by omega), h3]
+        simp; omega
+
+theorem showNat_digits (n : Nat) : ∀ c ∈ showNat n, isDigit c = true := (showNatF_spec (n + 1) n (by omega)).1
+theorem showNat_ne_nil (n : Nat) : showNat n ≠ [] := (showNatF_spec (n + 1) n (by omega)).2.1
+
+theorem pyNat_showNat (n : Nat) : pyNat? (showNat n) = some n := by
+  have h := showNatF_spec (n + 1) n (by omega)
+  unfold showNat at *
+  cases hs : showNatF (n + 1) n with
+  | nil => exact absurd hs h.2.1
+  | cons c rest =>
+    rw [hs] at h
+    simp only [pyNat?, h.1 c (by simp), if_true]
+    exact h.2.2
+
+theorem isDigit_not_space {c : Nat} (h : isDigit c = true) : isPySpace c = false := by
+  simp only [isDigit, isPySpace, Bool.and_eq_true, decide_eq_true_eq] at *
+  simp; omega
+
+/-- `int(str(n)) == n` for a natural number -/
+theorem pyInt_showNat (n : Nat) : pyInt? (showNat n) = some (Int.ofNat n) := by
+  have hd := showNat_digits n
+  have hne := showNat_ne_nil n
+  have hp := pyNat_showNat n
+  unfold pyInt?
+  cases hs : showNat n with
+  | nil => exact absurd hs hne
+  | cons c rest =>
+    rw [hs] at hd hp
+    have hc := hd c (by simp)
+    have h1 : (c :: rest).dropWhile isPySpace = c :: rest := by
+      simp [List.dropWhile, isDigit_not_space hc]
+    rw [h1]
+    have hlast : ((c :: rest).reverse).dropWhile isPySpace = (c :: rest).reverse := by
+      cases hr : (c :: rest).reverse with
+      | nil => simp at hr
+      | cons x xs =>
+        have hx : x ∈ c :: rest := by
+          have : x ∈ (c :: rest).reverse := by rw [hr]; simp
+          exact List.mem_reverse.mp this
+        simp [List.dropWhile, isDigit_not_space (hd x hx)]
+    rw [hlast, List.reverse_reverse]
+    have h43 : c ≠ 43 := by simp [isDigit] at hc; omega
+    have h45 : c ≠ 45 := by simp [isDigit] at hc; omega
+    split
+    · rename_i heq; simp at heq; exact absurd heq.1 h43
+    · rename_i heq; simp at heq; exact absurd heq.1 h45
+    · simp [hp]
+
+
+/-! ### the `_URL_RE` scanner on a composed text -/
+
+/-- facts about the regenerated character classes that the scanner lemmas need -/
+theorem stops_ok :
+    notIn schemeStop 58 = false ∧
+    notIn authStop 47 = false ∧ notIn authStop 63 = false ∧ notIn authStop 35 = false ∧
+    notIn pathStop 63 = false ∧ notIn pathStop 35 = false ∧ notIn pathStop 47 = true ∧
+    notIn queryStop 35 = false ∧ notIn queryStop 38 = true ∧ notIn queryStop 61 = true := by
+  decide
+
+def qpart (qs : Text) : Text := if qs ≠ [] then 63 :: qs else []
+def fpart (frag : Text) : Text := if frag ≠ [] then 35 :: frag else []
+
+theorem stopHead_tail2 {p : Nat → Bool} (h63 : p 63 = false) (h35 : p 35 = false) (qs frag : Text) :
+    StopHead p (qpart qs ++ fpart frag) := by
+  unfold qpart fpart
+  by_cases hq : qs = []
+  · by_cases hf : frag = []
+    · simp [hq, hf, stopHead_nil]
+    · simp only [hq, hf, ne_eq, not_true_eq_false, not_false_eq_true, if_true, if_false, List.nil_append]
+      exact stopHead_cons _ h35
+  · simp only [hq, ne_eq, not_false_eq_true, if_true, List.cons_append]
+    exact stopHead_cons _ h63
+
+theorem stopHead_tail1 {p : Nat → Bool} (h47 : p 47 = false) (h63 : p 63 = false) (h35 : p 35 = false)
+    (path qs frag : Text) (hp0 : path = [] ∨ path.head? = some 47) :
+    StopHead p (path ++ (qpart qs ++ fpart frag)) := by
+  cases path with
+  | nil => simpa using stopHead_tail2 h63 h35 qs frag
+  | cons x xs =>
+    rcases hp0 with h | h
+    · cases h
+    · simp at h; subst h; exact stopHead_cons _ h47
+
+structure Scanned (t scheme auth path qs frag : Text) : Prop where
+  scheme : schemeOf t = some scheme
+  auth : authorityOf (afterScheme t) = some auth
+  path : pathOf (afterAuthority (afterScheme t)) = path
+  query : (queryOf (afterPath (afterAuthority (afterScheme t)))).getD [] = qs
+  frag : (fragmentOf (afterQuery (afterPath (afterAuthority (afterScheme t))))).getD [] = frag
+
+theorem scan_composed (scheme auth path qs frag : Text)
+    (hs_ne : scheme ≠ []) (hs : ∀ c ∈ scheme, notIn schemeStop c = true)
+    (ha : ∀ c ∈ auth, notIn authStop c = true)
+    (hp : ∀ c ∈ path, notIn pathStop c = true) (hp0 : path = [] ∨ path.head? = some 47)
+    (hq : ∀ c ∈ qs, notIn queryStop c = true)
+    (hf : ∀ c ∈ frag, notIn fragStop c = true) :
+    Scanned (scheme ++ 58 :: 47 :: 47 :: (auth ++ (path ++ (qpart qs ++ fpart frag)))) scheme auth path qs frag := by
+  obtain ⟨s58, a47, a63, a35, p63, p35, p47, q35, q38, q61⟩ := stops_ok
+  have e1 : (scheme ++ 58 :: 47 :: 47 :: (auth ++ (path ++ (qpart qs ++ fpart frag)))).takeWhile (notIn schemeStop) = scheme :=
+    takeWhile_append_stop hs (stopHead_cons _ s58)
+  have e2 : (scheme ++ 58 :: 47 :: 47 :: (auth ++ (path ++ (qpart qs ++ fpart frag)))).dropWhile (notIn schemeStop)
+      = 58 :: 47 :: 47 :: (auth ++ (path ++ (qpart qs ++ fpart frag))) :=
+    dropWhile_append_stop hs (stopHead_cons _ s58)
+  have hS : schemeOf (scheme ++ 58 :: 47 :: 47 :: (auth ++ (path ++ (qpart qs ++ fpart frag)))) = some scheme := by
+    unfold schemeOf; rw [e2]; simp only [e1]; simp [hs_ne]
+  have hA : afterScheme (scheme ++ 58 :: 47 :: 47 :: (auth ++ (path ++ (qpart qs ++ fpart frag))))
+      = 47 :: 47 :: (auth ++ (path ++ (qpart qs ++ fpart frag))) := by
+    unfold afterScheme; rw [e2]; simp only [e1]; simp [hs_ne]
+  have t1 := stopHead_tail1 a47 a63 a35 path qs frag hp0
+  have hAu : authorityOf (47 :: 47 :: (auth ++ (path ++ (qpart qs ++ fpart frag)))) = some auth := by
+    simp only [authorityOf]; rw [takeWhile_append_stop ha t1]
+  have hAa : afterAuthority (47 :: 47 :: (auth ++ (path ++ (qpart qs ++ fpart frag)))) = path ++ (qpart qs ++ fpart frag) := by
+    simp only [afterAuthority]; rw [dropWhile_append_stop ha t1]
+  have t2 := stopHead_tail2 p63 p35 qs frag
+  have hP : pathOf (path ++ (qpart qs ++ fpart frag)) = path := by
+    unfold pathOf; exact takeWhile_append_stop hp t2
+  have hPa : afterPath (path ++ (qpart qs ++ fpart frag)) = qpart qs ++ fpart frag := by
+    unfold afterPath; exact dropWhile_append_stop hp t2
+  have t3 : StopHead (notIn queryStop) (fpart frag) := by
+    unfold fpart; split
+    · exact stopHead_cons _ q35
+    · exact stopHead_nil _
+  have hQ : (queryOf (qpart qs ++ fpart frag)).getD [] = qs ∧
+      (fragmentOf (afterQuery (qpart qs ++ fpart frag))).getD [] = frag := by
+    have hfr : (fragmentOf (fpart frag)).getD [] = frag := by
+      unfold fpart
+      split
+      · simp only [fragmentOf]
+        have := takeWhile_append_stop (p := notIn fragStop) (a := frag) hf (stopHead_nil _)
+        simp at this; simp [this]
+      · rename_i h; simp at h; simp [fragmentOf, h]
+    by_cases hqe : qs = []
+    · subst hqe
+      have hq0 : qpart [] = [] := by simp [qpart]
+      rw [hq0]; simp only [List.nil_append]
+      have : queryOf (fpart frag) = none ∧ afterQuery (fpart frag) = fpart frag := by
+        unfold fpart; split <;> simp [queryOf, afterQuery]
+      rw [this.1, this.2]; exact ⟨rfl, hfr⟩
+    · have hq1 : qpart qs = 63 :: qs := by simp [qpart, hqe]
+      rw [hq1]
+      simp only [List.cons_append, queryOf, afterQuery]
+      rw [takeWhile_append_stop hq t3, dropWhile_append_stop hq t3]
+      exact ⟨rfl, hfr⟩
+  exact ⟨hS, by rw [hA]; exact hAu, by rw [hA, hAa]; exact hP, by rw [hA, hAa, hPa]; exact hQ.1,
+         by rw [hA, hAa, hPa]; exact hQ.2⟩
+
+
+/-! ### fully quoted components -/
+
+section quoted
+variable (c : Comp) (nfc : Text → Text) (s : Text) (hs : ∀ x ∈ nfc s, isScalar x = true)
+include hs
+
+theorem quoteFull_ascii : ∀ ch ∈ quoteFull c.map nfc s, ch < 128 :=
+  quoteBytes_ascii c _ (utf8_lt (nfc s) hs)
+
+theorem quoteFull_stop : ∀ ch ∈ quoteFull c.map nfc s, (stopSet c).contains ch = false :=
+  quoteBytes_stop c _ (utf8_lt (nfc s) hs)
+
+theorem maybeUnquote_quoteFull : maybeUnquote (quoteFull c.map nfc s) = nfc s := by
+  unfold maybeUnquote
+  split
+  · exact unquote_quoteFull c nfc s hs
+  · rename_i h
+    have h37 : 37 ∉ quoteFull c.map nfc s := by simpa using h
+    have h1 := unquote_no_pct _ h37
+    rw [unquote_quoteFull c nfc s hs] at h1
+    exact h1.symm
+
+theorem quoteFull_eq_nil (h : quoteFull c.map nfc s = []) : nfc s = [] := by
+  have := unquote_quoteFull c nfc s hs
+  rw [h] at this
+  rw [← this]
+  simp [unquote, unqGo, unqBytes_nil, decodeR_nil]
+
+end quoted
+
+theorem plusToSpace_id (q : Text) (h : 43 ∉ q) : plusToSpace q = q := by
+  unfold plusToSpace
+  induction q with
+  | nil => rfl
+  | cons x q ih =>
+    simp only [List.mem_cons, not_or] at h
+    simp only [List.map_cons]
+    rw [ih h.2]
+    have : x ≠ 43 := fun e => h.1 e.symm
+    simp [this]
+
+/-- membership in a stop set, unfolded for the separators each component must avoid -/
+theorem stop_userinfo {ch : Nat} (h : (stopSet .userinfo).contains ch = false) :
+    notIn authStop ch = true ∧ ch ≠ 64 ∧ ch ≠ 58 := by
+  simp only [stopSet, List.contains_eq_mem, List.mem_append, decide_eq_false_iff_not, not_or] at h
+  simp only [List.mem_cons, List.mem_nil_iff, or_false, not_or] at h
+  refine ⟨by simp [notIn, h.1], h.2.1, h.2.2⟩
+
+theorem stop_path {ch : Nat} (h : (stopSet .path).contains ch = false) :
+    notIn pathStop ch = true ∧ ch ≠ 47 := by
+  simp only [stopSet, List.contains_eq_mem, List.mem_append, decide_eq_false_iff_not, not_or] at h
+  simp only [List.mem_cons, List.mem_nil_iff, or_false] at h
+  exact ⟨by simp [notIn, h.1], h.2⟩
+
+theorem stop_query {ch : Nat} (h : (stopSet .query).contains ch = false) :
+    notIn queryStop ch = true ∧ ch ≠ 38 ∧ ch ≠ 59 ∧ ch ≠ 61 ∧ ch ≠ 43 := by
+  simp only [stopSet, List.contains_eq_mem, List.mem_append, decide_eq_false_iff_not, not_or] at h
+  simp only [List.mem_cons, List.mem_nil_iff, or_false, not_or] at h
+  exact ⟨by simp [notIn, h.1], h.2.1, h.2.2.1, h.2.2.2.1, h.2.2.2.2⟩
+
+theorem stop_fragment {ch : Nat} (h : (stopSet .fragment).contains ch = false) :
+    notIn fragStop ch = true := by
+  simp only [stopSet] at h
+  simp only [notIn, h]; rfl
+
+/-! ### intercalate -/
+
+theorem mem_intercalate {sep x : Nat} {ls : List (List Nat)} (h : x ∈ [sep].intercalate ls) :
+    x = sep ∨ ∃ l ∈ ls, x ∈ l := by
+  induction ls with
+  | nil => simp at h
+  | cons a rest ih =>
+    cases rest with
+    | nil => simp at h; exact Or.inr ⟨a, by simp, h⟩
+    | cons b rest =>
+      rw [List.intercalate_cons_cons] at h
+      simp only [List.mem_append, List.mem_singleton] at h
+      rcases h with (h | h) | h
+      · exact Or.inr ⟨a, by simp, h⟩
+      · exact Or.inl h
+      · rcases ih h with h | ⟨l, hl, hx⟩
+        · exact Or.inl h
+        · exact Or.inr ⟨l, by simp [hl], hx⟩
+
+
+/-! ### path: render, split, decode -/
+
+theorem pathText_parts (env : Env) (parts : List Text) (hne : parts ≠ [])
+    (hs : ∀ s ∈ parts, ∀ x ∈ env.nfc s, isScalar x = true) :
+    ((pathText env true parts).splitOn 47).map maybeUnquote = parts.map env.nfc := by
+  unfold pathText
+  rw [List.splitOn_intercalate]
+  · rw [List.map_map]
+    apply List.map_congr_left
+    intro s hsm
+    simp only [Function.comp, quotePart, if_true]
+    exact maybeUnquote_quoteFull .path env.nfc s (hs s hsm)
+  · intro l hl
+    rw [List.mem_map] at hl
+    obtain ⟨s, hsm, rfl⟩ := hl
+    intro h47
+    have := quoteFull_stop .path env.nfc s (hs s hsm) 47 (by simpa [quotePart] using h47)
+    exact (stop_path this).2 rfl
+  · simpa using hne
+
+theorem pathText_chars (env : Env) (parts : List Text)
+    (hs : ∀ s ∈ parts, ∀ x ∈ env.nfc s, isScalar x = true) :
+    ∀ ch ∈ pathText env true parts, notIn pathStop ch = true := by
+  intro ch hch
+  unfold pathText at hch
+  rcases mem_intercalate hch with h | ⟨l, hl, hx⟩
+  · subst h; exact stops_ok.2.2.2.2.2.2.1
+  · rw [List.mem_map] at hl
+    obtain ⟨s, hsm, rfl⟩ := hl
+    exact (stop_path (quoteFull_stop .path env.nfc s (hs s hsm) ch (by simpa [quotePart] using hx))).1
+
+theorem quotePart_nil (c : Comp) (nfc : Text → Text) (hnil : nfc [] = []) : quotePart c nfc true [] = [] := by
+  simp [quotePart, quoteFull, utf8, hnil]
+
+theorem pathText_abs (env : Env) (hnil : env.nfc [] = []) (rest : List Text) :
+    pathText env true ([] :: rest) = [] ∨ (pathText env true ([] :: rest)).head? = some 47 := by
+  unfold pathText
+  cases rest with
+  | nil => left; simp [quotePart_nil _ _ hnil]
+  | cons b rest =>
+    right
+    simp only [List.map_cons]
+    rw [List.intercalate_cons_cons, quotePart_nil _ _ hnil]
+    simp
+
+
+/-! ### query: render, split, decode -/
+
+/-- the texts of one query pair are encodable after normalisation -/
+def PairScalar (nfc : Text → Text) (kv : Text × Option Text) : Prop :=
+  (∀ x ∈ nfc kv.1, isScalar x = true) ∧ ∀ v, kv.2 = some v → ∀ x ∈ nfc v, isScalar x = true
+
+def normPair (nfc : Text → Text) (kv : Text × Option Text) : Text × Option Text := (nfc kv.1, kv.2.map nfc)
+
+theorem pairText_chars (env : Env) (kv : Text × Option Text) (hs : PairScalar env.nfc kv) :
+    ∀ ch ∈ pairText env true kv, notIn queryStop ch = true ∧ ch ≠ 38 ∧ ch ≠ 59 ∧ ch ≠ 43 := by
+  intro ch hch
+  obtain ⟨k, v⟩ := kv
+  cases v with
+  | none =>
+    simp only [pairText, quotePart, if_true] at hch
+    have := stop_query (quoteFull_stop .query env.nfc k hs.1 ch hch)
+    exact ⟨this.1, this.2.1, this.2.2.1, this.2.2.2.2⟩
+  | some v =>
+    simp only [pairText, quotePart, if_true, List.mem_append, List.mem_cons] at hch
+    rcases hch with h | h | h
+    · have := stop_query (quoteFull_stop .query env.nfc k hs.1 ch h)
+      exact ⟨this.1, this.2.1, this.2.2.1, this.2.2.2.2⟩
+    · subst h; exact ⟨stops_ok.2.2.2.2.2.2.2.2.2, by decide, by decide, by decide⟩
+    · have := stop_query (quoteFull_stop .query env.nfc v (hs.2 v rfl) ch h)
+      exact ⟨this.1, this.2.1, this.2.2.1, this.2.2.2.2⟩
+
+theorem parsePair_pairText (env : Env) (kv : Text × Option Text) (hs : PairScalar env.nfc kv) :
+    parsePair (pairText env true kv) = normPair env.nfc kv := by
+  obtain ⟨k, v⟩ := kv
+  have hk := quoteFull_stop .query env.nfc k hs.1
+  have hk61 : ∀ x ∈ quoteFull Comp.query.map env.nfc k, x ≠ 61 := fun x hx => (stop_query (hk x hx)).2.2.2.1
+  have hk43 : 43 ∉ quoteFull Comp.query.map env.nfc k := fun h => (stop_query (hk 43 h)).2.2.2.2 rfl
+  have hkasc := quoteFull_ascii .query env.nfc k hs.1
+  have huk : unquote (quoteFull Comp.query.map env.nfc k) = env.nfc k := unquote_quoteFull .query env.nfc k hs.1
+  cases v with
+  | none =>
+    simp only [pairText, quotePart, if_true, parsePair, normPair, Option.map_none]
+    have hc : (quoteFull Comp.query.map env.nfc k).contains 61 = false := by
+      simp only [List.contains_eq_mem, decide_eq_false_iff_not]
+      intro h; exact hk61 61 h rfl
+    rw [before_none hk61, plusToSpace_id _ hk43, huk, hc]
+    simp
+  | some v =>
+    have hv := quoteFull_stop .query env.nfc v (hs.2 v rfl)
+    have hv43 : 43 ∉ quoteFull Comp.query.map env.nfc v := fun h => (stop_query (hv 43 h)).2.2.2.2 rfl
+    have huv : unquote (quoteFull Comp.query.map env.nfc v) = env.nfc v := unquote_quoteFull .query env.nfc v (hs.2 v rfl)
+    simp only [pairText, quotePart, if_true, parsePair, normPair, Option.map_some]
+    rw [before_append hk61, after_append hk61, plusToSpace_id _ hk43, huk, plusToSpace_id _ hv43, huv]
+    have hc : (quoteFull Comp.query.map env.nfc k ++ 61 :: quoteFull Comp.query.map env.nfc v).contains 61 = true := by simp
+    rw [hc]
+    simp only [if_true]
+    split
+    · rename_i h
+      rw [quoteFull_eq_nil .query env.nfc v (hs.2 v rfl) h]
+    · rfl
+
+theorem pairText_ne_nil (env : Env) (kv : Text × Option Text) (hs : PairScalar env.nfc kv)
+    (hok : ¬ (env.nfc kv.1 = [] ∧ kv.2 = none)) : pairText env true kv ≠ [] := by
+  obtain ⟨k, v⟩ := kv
+  cases v with
+  | none =>
+    simp only [pairText, quotePart, if_true]
+    intro h
+    exact hok ⟨quoteFull_eq_nil .query env.nfc k hs.1 h, rfl⟩
+  | some v => simp [pairText]
+
+theorem flatMap_splitOn_single (ls : List Text) (h : ∀ l ∈ ls, 59 ∉ l) :
+    ls.flatMap (fun s => s.splitOn 59) = ls := by
+  induction ls with
+  | nil => rfl
+  | cons a rest ih =>
+    simp only [List.flatMap_cons]
+    rw [List.splitOn_eq_singleton (h a (by simp)), ih (fun l hl => h l (by simp [hl]))]
+    rfl
+
+theorem parseQsl_nil : parseQsl [] = [] := by
+  simp [parseQsl, nonEmpty]
+
+theorem parseQsl_queryText (env : Env) (q : List (Text × Option Text))
+    (hs : ∀ kv ∈ q, PairScalar env.nfc kv)
+    (hok : ∀ kv ∈ q, ¬ (env.nfc kv.1 = [] ∧ kv.2 = none)) :
+    parseQsl (queryText env true q) = q.map (normPair env.nfc) := by
+  by_cases hq : q = []
+  · subst hq; simp [queryText, parseQsl_nil]
+  · unfold parseQsl queryText
+    rw [List.splitOn_intercalate]
+    · rw [flatMap_splitOn_single]
+      · have hf : (q.map (pairText env true)).filter nonEmpty = q.map (pairText env true) := by
+          rw [List.filter_eq_self]
+          intro l hl
+          rw [List.mem_map] at hl
+          obtain ⟨kv, hkv, rfl⟩ := hl
+          have := pairText_ne_nil env kv (hs kv hkv) (hok kv hkv)
+          cases hp : pairText env true kv with
+          | nil => exact absurd hp this
+          | cons _ _ => simp [nonEmpty]
+        rw [hf, List.map_map]
+        apply List.map_congr_left
+        intro kv hkv
+        exact parsePair_pairText env kv (hs kv hkv)
+      · intro l hl
+        rw [List.mem_map] at hl
+        obtain ⟨kv, hkv, rfl⟩ := hl
+        intro h59
+        exact (pairText_chars env kv (hs kv hkv) 59 h59).2.2.1 rfl
+    · intro l hl
+      rw [List.mem_map] at hl
+      obtain ⟨kv, hkv, rfl⟩ := hl
+      intro h38
+      exact (pairText_chars env kv (hs kv hkv) 38 h38).2.1 rfl
+    · simpa using hq
+
+theorem queryText_chars (env : Env) (q : List (Text × Option Text))
+    (hs : ∀ kv ∈ q, PairScalar env.nfc kv) :
+    ∀ ch ∈ queryText env true q, notIn queryStop ch = true := by
+  intro ch hch
+  unfold queryText at hch
+  rcases mem_intercalate hch with h | ⟨l, hl, hx⟩
+  · subst h; exact stops_ok.2.2.2.2.2.2.2.2.1
+  · rw [List.mem_map] at hl
+    obtain ⟨kv, hkv, rfl⟩ := hl
+    exact (pairText_chars env kv (hs kv hkv) ch hx).1
+
+
+/-! ### authority: render and parse back -/
+
+/-- a host character that cannot be mistaken for a delimiter of the authority -/
+def hostChar (c : Nat) : Bool := c < 128 && notIn authStop c && c != 64 && c != 58 && c != 91
+
+theorem hostChar_spec {c : Nat} (h : hostChar c = true) :
+    c < 128 ∧ notIn authStop c = true ∧ c ≠ 64 ∧ c ≠ 58 ∧ c ≠ 91 := by
+  simp only [hostChar, Bool.and_eq_true, decide_eq_true_eq, bne_iff_ne, ne_eq] at h
+  exact ⟨h.1.1.1.1, h.1.1.1.2, h.1.1.2, h.1.2, h.2⟩
+
+theorem auth_stops_ok : notIn authStop 58 = true ∧ notIn authStop 64 = true ∧
+    authStop.all (fun c => !isDigit c) = true := by decide
+
+theorem digit_notIn_authStop {c : Nat} (h : isDigit c = true) : notIn authStop c = true := by
+  have := auth_stops_ok.2.2
+  rw [List.all_eq_true] at this
+  simp only [notIn, Bool.not_eq_true', List.contains_eq_mem, decide_eq_false_iff_not]
+  intro hm
+  have := this c hm
+  simp [h] at this
+
+def uiText (env : Env) (u : URL) : Text :=
+  if u.username ≠ [] ∨ u.password ≠ [] then
+    quoteFull userinfoMap env.nfc u.username ++
+      (if u.password ≠ [] then 58 :: quoteFull userinfoMap env.nfc u.password else []) ++ [64]
+  else []
+
+def portText (u : URL) : Text :=
+  match u.port with
+  | some p => if p ≠ 0 ∧ some p ≠ (defaultPort u.scheme).map Int.ofNat then 58 :: showInt p else []
+  | none => []
+
+theorem authority_full (env : Env) (u : URL) (hne : u.host ≠ []) (hfam : u.family ≠ .inet6)
+    (henc : env.idnaEnc u.host = some u.host) :
+    authority env true u = .ok (uiText env u ++ u.host ++ portText u) := by
+  unfold authority uiText portText
+  simp only [hne, if_false, hfam, if_true, henc]
+  rfl
+
+/-- the port is absent, or a positive number different from the scheme's default -/
+def PortOK (u : URL) : Prop :=
+  u.port = none ∨ ∃ p : Nat, u.port = some (Int.ofNat p) ∧ 0 < p ∧ some p ≠ defaultPort u.scheme
+
+theorem portText_cases (u : URL) (h : PortOK u) :
+    (u.port = none ∧ portText u = []) ∨
+    (∃ p : Nat, u.port = some (Int.ofNat p) ∧ portText u = 58 :: showNat p) := by
+  rcases h with h | ⟨p, hp, hpos, hd⟩
+  · left; simp [portText, h]
+  · right
+    refine ⟨p, hp, ?_⟩
+    unfold portText
+    rw [hp]
+    have h0 : (Int.ofNat p) ≠ 0 := by
+      intro h; have : p = 0 := by exact Int.ofNat_eq_zero.mp h
+      omega
+    have h1 : some (Int.ofNat p) ≠ (defaultPort u.scheme).map Int.ofNat := by
+      intro h
+      cases hdp : defaultPort u.scheme with
+      | none => rw [hdp] at h; simp at h
+      | some d =>
+        rw [hdp] at h hd
+        simp only [Option.map_some, Option.some.injEq] at h
+        have : p = d := Int.ofNat.inj h
+        exact hd (by rw [this])
+    simp only []
+    rw [if_pos ⟨h0, h1⟩]
+    rfl
+
+theorem splitHostPort_render (u : URL) (hne : u.host ≠ []) (hh : ∀ c ∈ u.host, hostChar c = true)
+    (hp : PortOK u) : splitHostPort (u.host ++ portText u) = .ok (u.host, u.port) := by
+  have h58 : ∀ x ∈ u.host, x ≠ 58 := fun x hx => (hostChar_spec (hh x hx)).2.2.2.1
+  rcases portText_cases u hp with ⟨hn, ht⟩ | ⟨p, hpp, ht⟩
+  · rw [ht, hn]
+    unfold splitHostPort
+    have : u.host.contains 58 = false := by
+      simp only [List.contains_eq_mem, decide_eq_false_iff_not]
+      intro h; exact h58 58 h rfl
+    simp only [List.append_nil, this]
+    rfl
+  · rw [ht, hpp]
+    unfold splitHostPort
+    have hc : (u.host ++ 58 :: showNat p).contains 58 = true := by simp
+    have hb : before 58 (u.host ++ 58 :: showNat p) = u.host := before_append h58
+    have ha : after 58 (u.host ++ 58 :: showNat p) = showNat p := after_append h58
+    have hhead : ((before 58 (u.host ++ 58 :: showNat p)).head? = some 91 &&
+        (after 58 (u.host ++ 58 :: showNat p)).contains 93) = false := by
+      rw [hb]
+      cases hhost : u.host with
+      | nil => exact absurd hhost hne
+      | cons x xs =>
+        have : x ≠ 91 := (hostChar_spec (hh x (by rw [hhost]; simp))).2.2.2.2
+        simp [this]
+    simp only [hc, Bool.not_true, Bool.false_eq_true, if_false, hhead]
+    rw [ha, hb]
+    simp [parsePort, pyInt_showNat]
+
+theorem mem_hostinfo {u : URL} (hh : ∀ c ∈ u.host, hostChar c = true) (hp : PortOK u) :
+    ∀ x ∈ u.host ++ portText u, x ≠ 64 ∧ notIn authStop x = true := by
+  intro x hx
+  rw [List.mem_append] at hx
+  rcases hx with hx | hx
+  · have := hostChar_spec (hh x hx); exact ⟨this.2.2.1, this.2.1⟩
+  · rcases portText_cases u hp with ⟨_, ht⟩ | ⟨p, _, ht⟩
+    · rw [ht] at hx; simp at hx
+    · rw [ht] at hx
+      simp only [List.mem_cons] at hx
+      rcases hx with rfl | hx
+      · exact ⟨by decide, auth_stops_ok.1⟩
+      · have hd := showNat_digits p x hx
+        refine ⟨?_, digit_notIn_authStop hd⟩
+        simp [isDigit] at hd; omega
+
+/-- what `parse_url` finds in the rendered authority: the quoted user and password, the host,
+    its family, the port -/
+theorem parseAuthority_render (env : Env) (u : URL) (hne : u.host ≠ [])
+    (hh : ∀ c ∈ u.host, hostChar c = true) (hp : PortOK u)
+    (hfam : u.family = if env.fam4 u.host then .inet else .none)
+    (hsu : ∀ x ∈ env.nfc u.username, isScalar x = true)
+    (hsp : ∀ x ∈ env.nfc u.password, isScalar x = true) :
+    parseAuthority env (uiText env u ++ (u.host ++ portText u)) =
+      .ok ⟨if u.username ≠ [] ∨ u.password ≠ [] then quoteFull userinfoMap env.nfc u.username else [],
+           if u.password ≠ [] then quoteFull userinfoMap env.nfc u.password else [],
+           u.family, u.host, u.port⟩ := by
+  have hi := mem_hostinfo hh hp
+  have hi64 : ∀ x ∈ u.host ++ portText u, x ≠ 64 := fun x hx => (hi x hx).1
+  have hne' : u.host ++ portText u ≠ [] := by simp [hne]
+  have hqu := quoteFull_stop .userinfo env.nfc u.username hsu
+  have hqp := quoteFull_stop .userinfo env.nfc u.password hsp
+  have hhost : parseHost env u.host = .ok (u.family, u.host) := by
+    unfold parseHost
+    have hm : 58 ∉ u.host := by
+      intro h; exact (hostChar_spec (hh 58 h)).2.2.2.1 rfl
+    simp [hne, hm, hfam]
+  unfold parseAuthority
+  by_cases hui : u.username ≠ [] ∨ u.password ≠ []
+  · -- userinfo present
+    have hu58 : ∀ x ∈ quoteFull Comp.userinfo.map env.nfc u.username, x ≠ 58 :=
+      fun x hx => (stop_userinfo (hqu x hx)).2.2
+    by_cases hpw : u.password ≠ []
+    · have e : uiText env u ++ (u.host ++ portText u) =
+          (quoteFull Comp.userinfo.map env.nfc u.username ++ 58 :: quoteFull Comp.userinfo.map env.nfc u.password)
+            ++ 64 :: (u.host ++ portText u) := by
+        simp [uiText, hui, hpw, Comp.map]
+      rw [e]
+      simp only [rafter_append hi64, rbefore_append hi64]
+      have hc : ((quoteFull Comp.userinfo.map env.nfc u.username ++ 58 :: quoteFull Comp.userinfo.map env.nfc u.password)
+            ++ 64 :: (u.host ++ portText u)).contains 64 = true := by simp
+      simp only [hc, if_true, hne', if_false, before_append hu58, after_append hu58]
+      rw [splitHostPort_render u hne hh hp]
+      simp only [hhost]
+      simp [hui, hpw, Comp.map]
+    · have hpw' : u.password = [] := by simpa using hpw
+      have hun : u.username ≠ [] := by
+        rcases hui with h | h
+        · exact h
+        · exact absurd hpw' h
+      have e : uiText env u ++ (u.host ++ portText u) =
+          quoteFull Comp.userinfo.map env.nfc u.username ++ 64 :: (u.host ++ portText u) := by
+        simp [uiText, hun, hpw', Comp.map]
+      rw [e]
+      simp only [rafter_append hi64, rbefore_append hi64]
+      have hc : (quoteFull Comp.userinfo.map env.nfc u.username ++ 64 :: (u.host ++ portText u)).contains 64 = true := by
+        simp
+      simp only [hc, if_true, hne', if_false, before_none hu58, after_none hu58]
+      rw [splitHostPort_render u hne hh hp]
+      simp only [hhost]
+      simp [hun, hpw', Comp.map]
+  · have e : uiText env u ++ (u.host ++ portText u) = u.host ++ portText u := by
+      simp [uiText, hui]
+    rw [e]
+    have hc : (u.host ++ portText u).contains 64 = false := by
+      simp only [List.contains_eq_mem, decide_eq_false_iff_not]
+      intro h; exact hi64 64 h rfl
+    simp only [rafter_none hi64, hc, Bool.false_eq_true, if_false, hne']
+    rw [splitHostPort_render u hne hh hp]
+    simp only [hhost]
+    have hpw' : u.password = [] := by
+      simp only [not_or, ne_eq, Classical.not_not] at hui; exact hui.2
+    have hun' : u.username = [] := by
+      simp only [not_or, ne_eq, Classical.not_not] at hui; exact hui.1
+    simp [hun', hpw']
+
+theorem authText_chars (env : Env) (u : URL) (hh : ∀ c ∈ u.host, hostChar c = true) (hp : PortOK u)
+    (hsu : ∀ x ∈ env.nfc u.username, isScalar x = true)
+    (hsp : ∀ x ∈ env.nfc u.password, isScalar x = true) :
+    ∀ ch ∈ uiText env u ++ (u.host ++ portText u), notIn authStop ch = true := by
+  intro ch hch
+  rw [List.mem_append] at hch
+  rcases hch with hch | hch
+  · unfold uiText at hch
+    split at hch
+    · simp only [List.mem_append, List.mem_singleton] at hch
+      rcases hch with (h | h) | h
+      · exact (stop_userinfo (quoteFull_stop .userinfo env.nfc u.username hsu ch h)).1
+      · split at h
+        · simp only [List.mem_cons] at h
+          rcases h with rfl | h
+          · exact auth_stops_ok.1
+          · exact (stop_userinfo (quoteFull_stop .userinfo env.nfc u.password hsp ch h)).1
+        · simp at h
+      · subst h; exact auth_stops_ok.2.1
+    · simp at hch
+  · exact (mem_hostinfo hh hp ch hch).2
+
+
+/-! ### the whole URL: render fully quoted, parse back -/
+
+/-- every text stored in the URL is encodable once normalised (no lone surrogates) -/
+structure Scalars (env : Env) (u : URL) : Prop where
+  username : ∀ x ∈ env.nfc u.username, isScalar x = true
+  password : ∀ x ∈ env.nfc u.password, isScalar x = true
+  fragment : ∀ x ∈ env.nfc u.fragment, isScalar x = true
+  parts : ∀ s ∈ u.pathParts, ∀ x ∈ env.nfc s, isScalar x = true
+  query : ∀ kv ∈ u.query, PairScalar env.nfc kv
+
+/-- "a valid scheme, host and port" + an absolute path + no (empty key, no value) parameter -/
+structure WF (env : Env) (u : URL) : Prop where
+  scheme_ne : u.scheme ≠ []
+  scheme_ok : ∀ c ∈ u.scheme, notIn schemeStop c = true
+  host_ne : u.host ≠ []
+  host_ok : ∀ c ∈ u.host, hostChar c = true
+  family_ok : u.family = if env.fam4 u.host then .inet else .none
+  idna_enc : env.idnaEnc u.host = some u.host
+  idna_dec : env.idnaDec u.host = some u.host
+  port_ok : PortOK u
+  path_abs : ∃ rest, u.pathParts = [] :: rest
+  query_ok : ∀ kv ∈ u.query, ¬ (env.nfc kv.1 = [] ∧ kv.2 = none)
+  scalars : Scalars env u
+
+/-- what comes back: every text NFC-normalised, the `//` remembered -/
+def normal (env : Env) (u : URL) : URL :=
+  { u with netlocSep := true
+           username := env.nfc u.username
+           password := env.nfc u.password
+           pathParts := u.pathParts.map env.nfc
+           query := u.query.map (normPair env.nfc)
+           fragment := env.nfc u.fragment }
+
+def fullText (env : Env) (u : URL) : Text :=
+  u.scheme ++ 58 :: 47 :: 47 :: ((uiText env u ++ (u.host ++ portText u)) ++
+    (pathText env true u.pathParts ++ (qpart (queryText env true u.query) ++
+      fpart (quotePart .fragment env.nfc true u.fragment))))
+
+theorem family_ne6 {env : Env} {u : URL} (h : u.family = if env.fam4 u.host then .inet else .none) :
+    u.family ≠ .inet6 := by
+  rw [h]; split <;> simp
+
+theorem toText_full (env : Env) (u : URL) (hW : WF env u) (hnil : env.nfc [] = []) :
+    toText env true u = .ok (fullText env u) := by
+  obtain ⟨rest, hrest⟩ := hW.path_abs
+  unfold toText
+  rw [authority_full env u hW.host_ne (family_ne6 hW.family_ok) hW.idna_enc]
+  simp only
+  congr 1
+  have hauth : uiText env u ++ u.host ++ portText u ≠ [] := by simp [hW.host_ne]
+  have hpath := pathText_abs env hnil rest
+  rw [← hrest] at hpath
+  unfold assemble fullText qpart fpart
+  simp only [hW.scheme_ne, ne_eq, not_false_eq_true, if_true, hauth, true_and]
+  have hp : (if ¬ pathText env true u.pathParts = [] then
+      (if ¬ (pathText env true u.pathParts).head? = some 47 then 47 :: pathText env true u.pathParts
+       else pathText env true u.pathParts) else []) = pathText env true u.pathParts := by
+    rcases hpath with h | h
+    · simp [h]
+    · simp [h]
+  rw [hp]
+  simp [List.append_assoc]
+
+theorem fullText_scanned (env : Env) (u : URL) (hW : WF env u) (hnil : env.nfc [] = []) :
+    Scanned (fullText env u) u.scheme (uiText env u ++ (u.host ++ portText u))
+      (pathText env true u.pathParts) (queryText env true u.query)
+      (quotePart .fragment env.nfc true u.fragment) := by
+  obtain ⟨rest, hrest⟩ := hW.path_abs
+  have hpath := pathText_abs env hnil rest
+  rw [← hrest] at hpath
+  exact scan_composed _ _ _ _ _ hW.scheme_ne hW.scheme_ok
+    (authText_chars env u hW.host_ok hW.port_ok hW.scalars.username hW.scalars.password)
+    (pathText_chars env u.pathParts hW.scalars.parts) hpath
+    (queryText_chars env u.query hW.scalars.query)
+    (fun c hc => stop_fragment (quoteFull_stop .fragment env.nfc u.fragment hW.scalars.fragment c
+      (by simpa [quotePart] using hc)))
+
+theorem isAsciiText_host {u : URL} (hh : ∀ c ∈ u.host, hostChar c = true) : isAsciiText u.host = true := by
+  unfold isAsciiText
+  rw [List.all_eq_true]
+  intro c hc
+  simpa using (hostChar_spec (hh c hc)).1
+
+/-- parsing the fully quoted rendering gives the URL back, NFC-normalised -/
+theorem ofText_fullText (env : Env) (u : URL) (hW : WF env u) (hnil : env.nfc [] = []) :
+    URL.ofText env (fullText env u) = .ok (normal env u) := by
+  have hS := fullText_scanned env u hW hnil
+  obtain ⟨rest, hrest⟩ := hW.path_abs
+  unfold URL.ofText
+  simp only [hS.scheme, hS.auth, hS.path, hS.query, hS.frag, Option.getD_some, Option.isSome_some]
+  rw [parseAuthority_render env u hW.host_ne hW.host_ok hW.port_ok hW.family_ok
+      hW.scalars.username hW.scalars.password]
+  simp only [hW.host_ne, if_false, isAsciiText_host hW.host_ok, if_true, hW.idna_dec]
+  have hparts : u.pathParts ≠ [] := by rw [hrest]; simp
+  rw [pathText_parts env u.pathParts hparts hW.scalars.parts]
+  rw [parseQsl_queryText env u.query hW.scalars.query hW.query_ok]
+  have hfrag : maybeUnquote (quotePart .fragment env.nfc true u.fragment) = env.nfc u.fragment := by
+    simpa [quotePart] using maybeUnquote_quoteFull .fragment env.nfc u.fragment hW.scalars.fragment
+  rw [hfrag]
+  have hun : maybeUnquote (if u.username ≠ [] ∨ u.password ≠ [] then quoteFull userinfoMap env.nfc u.username else [])
+      = env.nfc u.username := by
+    split
+    · exact maybeUnquote_quoteFull .userinfo env.nfc u.username hW.scalars.username
+    · rename_i h
+      simp only [not_or, ne_eq, Classical.not_not] at h
+      rw [h.1, hnil]; rfl
+  have hpw : maybeUnquote (if u.password ≠ [] then quoteFull userinfoMap env.nfc u.password else [])
+      = env.nfc u.password := by
+    split
+    · exact maybeUnquote_quoteFull .userinfo env.nfc u.password hW.scalars.password
+    · rename_i h
+      simp only [ne_eq, Classical.not_not] at h
+      rw [h, hnil]; rfl
+  rw [hun, hpw]
+  rfl
+
+
+/-! ### rendering the parsed-back URL again -/
+
+/-- what the fixed-point theorems assume of the normaliser (all true of Unicode NFC) -/
+structure NfcLaws (nfc : Text → Text) : Prop where
+  nil : nfc [] = []
+  idem : ∀ s, nfc (nfc s) = nfc s
+  ne_nil : ∀ s, nfc s = [] → s = []
+
+theorem quoteFull_idem (m : List (List Nat)) {nfc : Text → Text} (hid : ∀ s, nfc (nfc s) = nfc s) (s : Text) :
+    quoteFull m nfc (nfc s) = quoteFull m nfc s := by
+  simp [quoteFull, hid]
+
+theorem nfc_ne_iff {nfc : Text → Text} (hl : NfcLaws nfc) (s : Text) : nfc s ≠ [] ↔ s ≠ [] := by
+  constructor
+  · intro h e; rw [e, hl.nil] at h; exact h rfl
+  · intro h e; exact h (hl.ne_nil s e)
+
+theorem normal_uiText (env : Env) (hl : NfcLaws env.nfc) (u : URL) : uiText env (normal env u) = uiText env u := by
+  unfold uiText normal
+  simp only [quoteFull_idem _ hl.idem, nfc_ne_iff hl]
+
+theorem normal_pairText (env : Env) (hl : NfcLaws env.nfc) (kv : Text × Option Text) :
+    pairText env true (normPair env.nfc kv) = pairText env true kv := by
+  obtain ⟨k, v⟩ := kv
+  cases v <;> simp [pairText, normPair, quotePart, quoteFull_idem _ hl.idem]
+
+theorem normal_fullText (env : Env) (hl : NfcLaws env.nfc) (u : URL) :
+    fullText env (normal env u) = fullText env u := by
+  unfold fullText
+  rw [normal_uiText env hl u]
+  have hp : pathText env true (normal env u).pathParts = pathText env true u.pathParts := by
+    simp only [pathText, normal, List.map_map]
+    congr 1
+    apply List.map_congr_left
+    intro s _
+    simp [quotePart, quoteFull_idem _ hl.idem]
+  have hq : queryText env true (normal env u).query = queryText env true u.query := by
+    simp only [queryText, normal, List.map_map]
+    congr 1
+    apply List.map_congr_left
+    intro kv _
+    exact normal_pairText env hl kv
+  have hf : quotePart .fragment env.nfc true (normal env u).fragment = quotePart .fragment env.nfc true u.fragment := by
+    simp [normal, quotePart, quoteFull_idem _ hl.idem]
+  rw [hp, hq, hf]
+  rfl
+
+theorem normal_WF (env : Env) (hl : NfcLaws env.nfc) (u : URL) (hW : WF env u) : WF env (normal env u) where
+  scheme_ne := hW.scheme_ne
+  scheme_ok := hW.scheme_ok
+  host_ne := hW.host_ne
+  host_ok := hW.host_ok
+  family_ok := hW.family_ok
+  idna_enc := hW.idna_enc
+  idna_dec := hW.idna_dec
+  port_ok := hW.port_ok
+  path_abs := by
+    obtain ⟨rest, h⟩ := hW.path_abs
+    exact ⟨rest.map env.nfc, by simp [normal, h, hl.nil]⟩
+  query_ok := by
+    intro kv hkv
+    simp only [normal, List.mem_map] at hkv
+    obtain ⟨kv0, h0, rfl⟩ := hkv
+    intro h
+    apply hW.query_ok kv0 h0
+    simp only [normPair, hl.idem] at h
+    refine ⟨h.1, ?_⟩
+    cases hv : kv0.2 with
+    | none => rfl
+    | some v => rw [hv] at h; simp at h
+  scalars := {
+    username := by simpa [normal, hl.idem] using hW.scalars.username
+    password := by simpa [normal, hl.idem] using hW.scalars.password
+    fragment := by simpa [normal, hl.idem] using hW.scalars.fragment
+    parts := by
+      intro s hs
+      simp only [normal, List.mem_map] at hs
+      obtain ⟨s0, h0, rfl⟩ := hs
+      rw [hl.idem]; exact hW.scalars.parts s0 h0
+    query := by
+      intro kv hkv
+      simp only [normal, List.mem_map] at hkv
+      obtain ⟨kv0, h0, rfl⟩ := hkv
+      have := hW.scalars.query kv0 h0
+      refine ⟨by simpa [normPair, hl.idem] using this.1, ?_⟩
+      intro v hv
+      simp only [normPair] at hv
+      cases hv0 : kv0.2 with
+      | none => rw [hv0] at hv; simp at hv
+      | some v0 =>
+        rw [hv0] at hv
+        simp only [Option.map_some, Option.some.injEq] at hv
+        subst hv
+        rw [hl.idem]
+        exact this.2 v0 hv0 }
+
+
 end C06
